@@ -421,4 +421,13 @@ theorem code_authenticate_end_to_end
 
 end FindAccessKey
 
+/-- non-vacuity: two keys, the second opens the header; 50 bytes are read -/
+example : (Gen.Code.findAccessKey
+    (fun _ _ => [⟨1, { Gen.Code.CipherEntry.zero with ID := "a", CryptoKey := ⟨1⟩ }⟩, ⟨2, { Gen.Code.CipherEntry.zero with ID := "b", CryptoKey := ⟨2⟩ }⟩])
+    (fun _ => 32) (fun _ => 16) (fun _ _ => ⟨7⟩) (fun _ => ⟨8⟩) (fun t => t + 5)
+    (fun _ _ k => ([], if k.val = 2 then none else some "bad")) (fun _ n => (List.replicate n.toNat 9, n, none)) 100 ⟨3⟩ ⟨4⟩ ⟨5⟩ ⟨6⟩).map
+    (fun r => (r.1.map (·.ID), r.2.2.1.length, r.2.2.2.2.1, r.2.2.2.2.2.map (·.name))) =
+    some (some "b", 32, none, ["CipherList.MarkUsedByClientIP"]) := by decide
+
+
 end OutlineModel.Props.C01
